@@ -31,4 +31,16 @@ TEXT = {
         "level_note": COMMON_NOTE + "Partial: the bucket-purity theorem is not yet proved (exploration only for that clause).",
         "technique": "Lean 4 proof (corollary of C07 + list algebra) + differential correspondence with executable predicate; bucket clause by execution only",
     },
+    "C10": {
+        "level_text": "Generic theorems (any storage width w, any K with 2K<=w; instantiated on the table of 19 shipped types regenerated from "
+                      "kmer.rs and checked well-formed by `decide`): get/set_mut, extend_left, extend_right and from_bytes of the bit-level "
+                      "model commute with the corresponding list operations and preserve the 'unused bits are zero' invariant, for all k-mer "
+                      "values, positions and bases. The remaining operations (rc, set_slice_mut, rank conversion, Hamming/AT/GC counts, "
+                      "text) are modelled bit for bit and compared with the crate and with the string-level reference on every run, but their "
+                      "Lean theorems are not yet written.",
+        "design_ref": "DESIGN.md section 6, C10",
+        "level_note": COMMON_NOTE + "Partial: see evidence.partial_theorems. Masks/shift amounts of reverse_by_twos, lower_of_two, the type table and "
+                      "the ASCII tables are regenerated from the source on every run.",
+        "technique": "Lean 4 proof (bit-level refinement, generic width) + generated-constant tie + differential correspondence",
+    },
 }
